@@ -32,6 +32,7 @@ let parse_header h =
 let parse_op o =
   match o with
   | ["G"; _] -> failwith "G"
+  | ["O"; _] -> failwith "O"
   | "P" :: e :: sz :: np :: ps ->
     if List.length ps <> int_of_string np then failwith "bad parents";
     OpPush (n_of_tok e, List.map n_of_tok ps, n_of_tok sz)
@@ -39,6 +40,7 @@ let parse_op o =
   | ["X"; e] -> OpConnect (n_of_tok e)
   | _ -> failwith "bad op"
 
+let filter_map f l = List.fold_right (fun x a -> match f x with Some y -> y :: a | None -> a) l []
 let b01 b = if b then "1" else "0"
 let tok_of_out o =
   match o with
@@ -102,7 +104,18 @@ let eval inp obs =
   let header, ops = (match groups with h :: r -> h, r | [] -> failwith "empty") in
   let (ln, ls, tc, tp) = parse_header header in
   let concurrent = List.exists (fun o -> match o with ["G"; _] -> true | _ -> false) ops in
-  let ops = List.map parse_op (List.filter (fun o -> match o with ["G"; _] -> false | _ -> true) ops) in
+  (* "O <flags>": the buffer is built without its optional callbacks (r: Released == nil, c: Check ==
+     nil).  The code sets the per-copy `released` flag and skips the check regardless of whether
+     anybody listens: the model's OReleased / OCheck entries are then internal events, projected
+     out of the observation.  Without Released lines T3 (and "never after Released") cannot be
+     observed: the specification evaluated on the implementation's log is T1, T2 (at most one
+     Process per copy), T4 and T5. *)
+  let flags = String.concat "" (filter_map (fun o -> match o with ["O"; f] -> Some f | _ -> None) ops) in
+  let no_released = String.contains flags 'r' and no_check = String.contains flags 'c' in
+  let tc = if no_check then [] else tc in
+  let project toks = List.filter (fun t -> not ((no_released && String.length t > 1 && String.sub t 0 2 = "R.")
+                                              || (no_check && String.length t > 1 && String.sub t 0 2 = "C."))) toks in
+  let ops = List.map parse_op (List.filter (fun o -> match o with ["G"; _] | ["O"; _] -> false | _ -> true) ops) in
   let ltok, obs_rest, ops =
     if not concurrent then [], obs, ops else
     (match obs with
@@ -114,11 +127,18 @@ let eval inp obs =
   let s = run_tbl true tc tp ln ls ops in
   let mlog = List.rev (log s) in
   let mtoks = List.map tok_of_out mlog in
-  let mobs = ltok @ (if concurrent then List.map conc_tok mtoks else mtoks) @ (if oof s then ["OOF"] else []) in
+  let mobs = ltok @ project (if concurrent then List.map conc_tok mtoks else mtoks) @ (if oof s then ["OOF"] else []) in
   let ilog = (try Some (List.map out_of_tok (if concurrent then fill_unknown obs_rest else obs_rest)) with _ -> None) in
   let spec_ok, note =
     (match ilog with
      | None -> Some false, "unparsable-observation"
+     | Some l when no_released ->
+       let cs = copies_of ops in
+       if not (t1_walk cs [] l) then Some false, "spec-clause=T1"
+       else if not (t2_walk [] [] l) then Some false, "spec-clause=T2"
+       else if not (t4_walk ln ls l) then Some false, "spec-clause=T4"
+       else if not (t5_check ln ls ops l) then Some false, "spec-clause=T5"
+       else Some true, ""
      | Some l ->
        let f = c14_first_failure ln ls ops l in
        if tok_of_n f = "0" then Some true, ""
